@@ -61,6 +61,20 @@ def main():
     if len(impl) != len(cases):
         raise RuntimeError("harness died rc=%s %s" % (rc, err[-500:]))
     model, _, _ = vlib.run_lines(drv, ["dec %s" % vlib.hx(s) for s, c in cases])
+    # blast() and put() as GENERATED from today's qmail-smtpd.c (coq/gen/CGen.v C_sblast, proved equal to the model in
+    # Tie/Gen_codec.v when that file is in the build) run against the compiled function too: validation of the translator
+    genmis = []
+    try:
+        gdrv = vlib.build_driver("GEN")
+        pick = list(range(len(cases))) if len(cases) <= 6000 else sorted(ck.rng.sample(range(len(cases)), 6000))
+        g, _, _ = vlib.run_lines(gdrv, ["sblast %s 0" % vlib.hx(cases[i][0]) for i in pick])
+        for i, gr in zip(pick, g):
+            ck.count("generated_sblast")
+            a = impl[i]
+            same = (gr == "X" and a == "X") or (gr.startswith("N ") and a.split()[:2] == gr.split()[:2]) or (gr.startswith("D ") and gr.rsplit(" ", 1)[0] == a and gr.endswith(" F0"))
+            if not same: genmis.append(dict(stream=vlib.hx(cases[i][0]), real=a[:200], generated=gr[:200]))
+    except RuntimeError as e:
+        genmis.append(dict(what="generated functions do not build", log=str(e)[-600:]))
     def strip(r):            # "D body rest hops" -> ("D body rest", hops)
         w = r.split()
         return (" ".join(w[:3]), w[3]) if w and w[0] == "D" and len(w) == 4 else (r, None)
@@ -163,6 +177,9 @@ def main():
                                             input_hex=vlib.hx(s), read_chunk=c, observed=impl[i], expected=model[i],
                                             expected_hops=hop_model.get(i), n_disagreements=len(mism) + len(hopmis)), nofail=True,
                      what="model and implementation disagree (decoding or hop count) but ok_C05 holds on every implementation output")
+    if genmis and not anyfail:
+        ck.violation("correspondence-generated", dict(kind="correspondence", broken="coq/gen/CGen.v C_sblast (generated from qmail-smtpd.c by tools/c2gallina.py) = the compiled blast()",
+                                                      first=genmis[0], n=len(genmis)), nofail=True, what="the generated function and the compiled function disagree (translator)")
     ck.proof_failure_violation(anyfail)
     ck.finish(trusted_base=[vlib.KERNEL_TB, vlib.EXTRACTION_TB,
                             "harness/h_sblast.c (ssin/ssout/qqt.ss replaced by memory buffers; _exit via longjmp; EOF on input = die_read)",
